@@ -28,6 +28,8 @@ void vs_end(void);
 long long vs_now_us(void);
 /** Advance the virtual clock (work tick driven by the harness). Only effective when called by a managed thread. */
 void vs_advance_us(long long us);
+/* like vs_advance_us, and if a sleeping thread has become due, yield to it right here (a timer landing in the middle of a computation) */
+void vs_advance_us_wake(long long us);
 /** Cost of one clock query (default 1 us). */
 void vs_set_query_us(long long us);
 int vs_active(void);
